@@ -54,7 +54,7 @@ type Client struct {
 	Exch     []Exch `json:"exch"`
 	Spoof    int    `json:"spoof,omitempty"`     // forged foreign-ID datagrams injected towards this client
 	Pipeline bool   `json:"pipeline,omitempty"`  // tcp: all queries are written before any reply is read; the handlers answer asynchronously
-	SlowRead bool   `json:"slow_read,omitempty"` // with Pipeline: the client takes the first ten octets of the reply stream, pauses for three seconds, then reads on; the link's window is 64 octets in such a run, so the server's writes wait for it
+	SlowRead bool   `json:"slow_read,omitempty"` // with Pipeline: the client takes the first ten octets of the reply stream, pauses for three seconds, then reads on; the link's window is 256 octets in such a run, so the server's writes wait for it
 	Trickle  bool   `json:"trickle,omitempty"`   // tcp: the first query arrives in three pieces, 1.5 and 1 server read timeouts apart, the others right behind it; the server (read timeout 2 s in such a run) may give up on the connection, it must not serve anything but the requests that were sent
 	Home     int    `json:"home,omitempty"`      // udp: which of the server host's addresses this client talks to
 }
@@ -230,10 +230,16 @@ func Gen(seed uint64, tier string) any {
 				c.Exch[j].TimeoutMs = 60000
 			}
 			if core.Chance(r, 35) {
+				// (small queries that fit the window together: a client that still writes while the
+				// server is already stuck writing to it is a deadlock of the two, not of the library)
 				c.SlowRead = true
-				sc.Window = 64
+				sc.Window = 256
+				if len(c.Exch) > 3 {
+					c.Exch = c.Exch[:3]
+				}
 				for j := range c.Exch {
-					c.Exch[j].H.ReplySize = 300 + r.IntN(900)
+					c.Exch[j].Size = 0
+					c.Exch[j].H.ReplySize = 600 + r.IntN(900)
 				}
 			}
 		}
